@@ -870,6 +870,13 @@ func (g *gen) genOp(cur *T) *Op {
 			o.Name = "LEN"
 		} else {
 			o.I, o.J = g.r.Intn(n), g.r.Intn(n)
+			if g.r.Chance(1, 6) { // out-of-range positions: a no-op (fix d346b1d)
+				if g.r.Bool() {
+					o.I = n + g.r.Intn(3)
+				} else {
+					o.J = n + g.r.Intn(3)
+				}
+			}
 		}
 	case "SORT", "LOAD":
 		o.I = g.r.Intn(2)
